@@ -33,6 +33,7 @@ import (
 	"github.com/prometheus/alertmanager/types"
 
 	"verifharness/sysrun"
+	"verifharness/appsys"
 	"verifharness/vh"
 	"verifharness/vhm"
 )
@@ -1079,6 +1080,11 @@ func firstKey(m map[int]bool) int {
 func TestCheck(t *testing.T) {
 	env := vh.GetEnv()
 	run := vh.NewRun(env, "AM.Run.C03Run")
+	// app engine: the REAL application wiring (package app) in real time, in its own process; reports through run.
+	// true = the replay file held an app-engine case and has been handled.
+	if appsys.Part(t, env, run, "C03") {
+		return
+	}
 	var cases []Case
 	if env.Replay != "" {
 		var c Case
